@@ -391,19 +391,25 @@ func directed(res *vh.Result, tw *vh.TraceWriter, seed int64, base int) {
 		res   ResCfg
 		agg   string
 		hb    []int64
+		max   int // exponential histogram MaxSize
+		burst int // measurements on one attribute set in one interval (beyond the default reservoir sizes)
 	}
 	cases := []dcase{
-		{"fixed-negative-k", "Counter", false, ResCfg{Kind: "fixed", K: -1, Bounds: []int64{}}, "sum", nil},
-		{"fixed-negative-k-histogram", "Histogram", true, ResCfg{Kind: "fixed", K: -3, Bounds: []int64{}}, "hist", []int64{4, 8}},
-		{"fixed-zero-k", "Gauge", true, ResCfg{Kind: "fixed", K: 0, Bounds: []int64{}}, "last", nil},
-		{"histogram-reservoir-no-bounds", "UpDownCounter", true, ResCfg{Kind: "hist", Bounds: []int64{}}, "sum", nil},
-		{"histogram-aggregation-no-bounds", "Histogram", true, ResCfg{Kind: "default", Bounds: []int64{}}, "hist", []int64{}},
+		{"fixed-negative-k", "Counter", false, ResCfg{Kind: "fixed", K: -1, Bounds: []int64{}}, "sum", nil, 0, 0},
+		{"fixed-negative-k-histogram", "Histogram", true, ResCfg{Kind: "fixed", K: -3, Bounds: []int64{}}, "hist", []int64{4, 8}, 0, 0},
+		{"fixed-zero-k", "Gauge", true, ResCfg{Kind: "fixed", K: 0, Bounds: []int64{}}, "last", nil, 0, 0},
+		{"histogram-reservoir-no-bounds", "UpDownCounter", true, ResCfg{Kind: "hist", Bounds: []int64{}}, "sum", nil, 0, 0},
+		{"histogram-aggregation-no-bounds", "Histogram", true, ResCfg{Kind: "default", Bounds: []int64{}}, "hist", []int64{}, 0, 0},
+		// the default reservoir sizes: min(20, MaxSize) for exponential histograms, the number of CPUs otherwise
+		{"default-size-expo-160", "Histogram", true, ResCfg{Kind: "default", Bounds: []int64{}}, "expo", nil, 160, 31},
+		{"default-size-expo-4", "Histogram", false, ResCfg{Kind: "default", Bounds: []int64{}}, "expo", nil, 4, 9},
+		{"default-size-ncpu", "Counter", false, ResCfg{Kind: "default", Bounds: []int64{}}, "sum", nil, 0, runtime.NumCPU() + 7},
 	}
 	for ci, c := range cases {
 		for ti, temp := range []string{"delta", "cumulative"} {
 			id := base + 10 + ci*2 + ti
 			sp := StreamSpec{Kind: c.kind, Float: c.float, Name: "d." + c.name, AggView: true,
-				Model: ModelCfg{Res: c.res, Agg: c.agg, Hb: c.hb, Keep: KeepCfg{All: true, Keys: []string{}}}}
+				Model: ModelCfg{Res: c.res, Agg: c.agg, Hb: c.hb, Maxsize: c.max, Keep: KeepCfg{All: true, Keys: []string{}}}}
 			if sp.Model.Hb == nil {
 				sp.Model.Hb = []int64{}
 			}
@@ -422,6 +428,11 @@ func directed(res *vh.Result, tw *vh.TraceWriter, seed int64, base int) {
 							continue
 						}
 						m := w.newMeas(as, x.v, x.cls, []string{"sampled", "none", "unsampled"}[i%3], 0)
+						m.G = m.O
+						w.measure(in, m, i, nil)
+					}
+					for i := 0; i < c.burst; i++ {
+						m := w.newMeas(as, int64(4+i%5), "fin", "sampled", 0)
 						m.G = m.O
 						w.measure(in, m, i, nil)
 					}
